@@ -27,11 +27,15 @@ def jobs(ctx):
     if not q:
         cfgs += [(4, 4, 15, 15, 0, 0, 0), (4, 3, 15, 7, 0, 0, 1), (13, 13, (1 << 0) | (1 << 8), (1 << 4) | (1 << 12), 1 << 6, 1 << 6, 0),
                  (13, 12, (1 << 3) | (1 << 12), (1 << 3) | (1 << 11), 0, 0, 2), (8, 8, 0x81, 0x81, 0x18, 0x18, 0), (13, 13, 0x1001, 0x1001, 0, 0x40, 0)]
-    for nl, nr, hl, hr, el, er, sh in cfgs:
-        nh = bin(hl).count("1") + bin(hr).count("1")
-        out.append(Job(REL, PKG, H, "VerifC27LineDiff", {"nl": nl, "nr": nr, "hl": hl, "hr": hr, "el": el, "er": er, "shift": sh},
-                       tag="linediff nl=%d nr=%d hl=%x hr=%x el=%x er=%x shift=%d" % (nl, nr, hl, hr, el, er, sh), cost=3.0 ** nh / 5 + 2))
-    out.append(Job(REL, PKG, H, "VerifC27LineDiff", {"nl": 2, "nr": 2, "hl": 3, "hr": 3, "el": 0, "er": 0, "shift": 0}, tag="linediff twin", twin=True))
+    cfgs = [c + (0, 0) for c in cfgs]
+    # insertions / deletions at the very top followed by 1..8 unchanged lines (leading context handling)
+    for n in ((1, 3, 4, 5, 8) if q else range(1, 12)):
+        cfgs += [(n, n, 0, 0, 0, 0, 0, 1, 0), (n, n, 0, 0, 0, 0, 0, 0, 1), (n, n, 0, 1 << (n - 1), 0, 0, 0, 2, 0)]
+    for nl, nr, hl, hr, el, er, sh, pre, prel in cfgs:
+        nh = bin(hl).count("1") + bin(hr).count("1") + pre + prel
+        out.append(Job(REL, PKG, H, "VerifC27LineDiff", {"nl": nl, "nr": nr, "hl": hl, "hr": hr, "el": el, "er": er, "shift": sh, "pre": pre, "prel": prel},
+                       tag="linediff nl=%d nr=%d hl=%x hr=%x el=%x er=%x shift=%d pre=%d prel=%d" % (nl, nr, hl, hr, el, er, sh, pre, prel), cost=3.0 ** nh / 5 + 2))
+    out.append(Job(REL, PKG, H, "VerifC27LineDiff", {"nl": 2, "nr": 2, "hl": 3, "hr": 3, "el": 0, "er": 0, "shift": 0, "pre": 0, "prel": 0}, tag="linediff twin", twin=True))
     return out
 
 
